@@ -432,6 +432,28 @@ def long_cases(tier, seed):
         yield {"scn": scn, "cuts": [L - 8, L - 7, L - 6, L - 5, L - 4, L - 3, L - 2, L - 1], "eintr": False}
 
 
+def many_pieces_cases(tier, seed):
+    """one value that trickles in over a thousand and more recv() results: byte by byte, or in pieces of a few bytes, with the
+    last cut before, inside and after the CR LF that ends the data block - sizes chosen so that the number of pieces passes
+    1000, 1024, 2000, 4096 and 10000 exactly, one less and one more"""
+    for kind in ("client", "pooled"):
+        for p in (1, 2, 3, 7):
+            for target in (1000, 1024, 2000, 4096, 10000):
+                if tier == "quick" and (target > 4096 or (p > 1 and target not in (1000, 2000))):
+                    continue
+                for d in (-2, -1, 0, 1):
+                    n = p * target + d
+                    if n <= 0:
+                        continue
+                    v = (b"0123456789ab" * (n // 12 + 1))[:n]
+                    for op in (({"op": "get", "key": "big"},) if tier == "quick" or kind == "pooled" else ({"op": "get", "key": "big"}, {"op": "gets", "key": "big"}, {"op": "get_many", "keys": ["big", "z"]})):
+                        scn = S(op, [(b"big", v, 0), (b"z", b"zz", 0)], kind=kind)
+                        head = len(baseline(scn)[1]) - n - (7 if op["op"] != "get_many" else 7 + len(b"VALUE z 0 2\r\nzz\r\n"))      # where the data block starts
+                        cuts = list(range(head + p, head + n, p))
+                        for tail in ([head + n], [head + n + 1], [head + n, head + n + 1], []):
+                            yield {"scn": scn, "cuts": sorted(set(cuts + tail)), "eintr": False}
+
+
 def random_strategy(tier):
     tricky = st.sampled_from([b"\r\n", b"END\r\n", b"\r", b"\n", b"VALUE k 0 1\r\n", b"END", b"STORED\r\n", b"E", b"\r\nEND"])
     value = st.one_of(st.binary(max_size=40), st.lists(st.one_of(tricky, st.binary(max_size=6)), max_size=8).map(b"".join),
@@ -594,6 +616,7 @@ PARTS = [
     Part("all-cut-subsets", "enum", check, cases=subsets_cases, exhaustive=True),
     Part("k-cuts", "enum", check, cases=kcut_cases, exhaustive=True),
     Part("long-streams", "enum", check, cases=long_cases),
+    Part("many-pieces", "enum", check, cases=many_pieces_cases),
     Part("after-a-history", "enum", check, cases=history_cases),
     Part("random", "hyp", check, strategy=random_strategy,
          examples={"quick": 400, "thorough": 12000}, shards={"quick": 4, "thorough": 16}),
